@@ -113,6 +113,10 @@ def gen_plan(seed: int, run: int, tier: str) -> dict:
             kinds = SQL_KINDS
         fk = frng.choice(kinds)
         f: dict[str, Any] = {"victim": v, "op_index": oi, "kind": fk, "nth": frng.choice([0, 0, 0, 1, 1, 2, 3, 5, 8, 13]) if not journal else frng.choice([0, 0, 0, 0, 1, 1, 2])}
+        if not journal and not kind.startswith("grpc(") and frng.random() < 0.3:
+            # not a death: a KeyboardInterrupt (Ctrl-C, notebook interrupt) lands in the middle
+            # of the storage call; the process lives on and keeps using its storage object
+            f["mode"] = "interrupt"
         if fk in ("fs.symlink", "fs.open_excl"):
             # the victim uses one lock class; make the kind match it later (run time knows)
             f["kind"] = "fs.lock_create"
@@ -219,6 +223,7 @@ def _run(plan: dict, sim: sched.Sim, ch: sched.Chooser, dep: deploy.Deployment) 
     cur_op: dict[str, int] = {}
     seen_kind: dict[tuple, int] = {}
     crashes: list[dict] = []
+    interrupts: list[dict] = []
     verdict: list[tuple[str, str]] = []
     faults = [dict(f) for f in plan.get("faults", []) if f.get("victim") in plan["tasks"]]
     durations: list[tuple[str, float, int]] = []
@@ -248,6 +253,10 @@ def _run(plan: dict, sim: sched.Sim, ch: sched.Chooser, dep: deploy.Deployment) 
                 if seen_kind[key] - 1 != f["nth"]:
                     continue
             f["fired"] = True
+            if f.get("mode") == "interrupt" and not proxied:
+                interrupts.append({"victim": name, "at": skind, "detail": detail, "t": sim.now})
+                sim.count("interrupt@" + skind)
+                raise KeyboardInterrupt()
             crashes.append({"victim": name, "at": skind, "detail": detail, "t": sim.now})
             sim.count("crash@" + skind)
             if "tear" in f:
@@ -307,7 +316,7 @@ def _run(plan: dict, sim: sched.Sim, ch: sched.Chooser, dep: deploy.Deployment) 
         dep.fs.on_op = on_op
         sim.sleep = sleep  # type: ignore[method-assign]
 
-    victims = {f["victim"] for f in faults}
+    victims = {f["victim"] for f in faults if f.get("mode") != "interrupt"}
     holders: list[str] = []
     overlap: list[str] = []
 
@@ -397,6 +406,13 @@ def _run(plan: dict, sim: sched.Sim, ch: sched.Chooser, dep: deploy.Deployment) 
                         res = ops.apply_real(st, op, env)
                 except sched.SimKilled:
                     raise  # the interrupted call stays in the history as ambiguous (ret None)
+                except KeyboardInterrupt:
+                    # the call was interrupted, the worker goes on: outcome ambiguous (wholly
+                    # applied or wholly absent), nothing of it may leak into later calls
+                    sim.note("interrupted", name, op["op"])
+                    if op["op"].startswith("get_"):
+                        history.remove(h)
+                    continue
                 if proxied and res[0] == "err" and res[1] == "SimRpcError" and "server died" in res[2]:
                     # in flight when the server died: executed or not, the client cannot know
                     sim.count("rpc_in_flight_at_crash")
@@ -424,7 +440,7 @@ def _run(plan: dict, sim: sched.Sim, ch: sched.Chooser, dep: deploy.Deployment) 
     for n, t in sorted(plan["tasks"].items()):
         tasks.append(sim.spawn(procs[t["proc"]], n, make_task(n, t)))
     status = sim.run()
-    fired = len(crashes)
+    fired = len(crashes) + len(interrupts)
     if status == "deadlock":
         why = "; ".join("%s blocked on %s" % (t.name, t.blocked_why) for t in tasks if not t.done)
         return common.result(sim, ch, "violation", prefix + "deadlock", why + " after crashes %r" % crashes, nontrivial=fired > 0)
